@@ -102,7 +102,7 @@ CLAIMED = {
              "the out-of-order map holds - every insertion, erasure, in-place trim, replacement and move-out of a chunk "
              "is matched by the right counter adjustment on every CFG path, including whether a moved chunk is really "
              "consumed by the callee; (R2) two sequence numbers never meet in <,>,<=,>= outside the RFC1982 helpers "
-             "(necessary for wrap-safety); (R3) the cyclic walk over the sequence-keyed map wraps at every advance.",
+             "(necessary for wrap-safety); (R3) the cyclic walk over the sequence-keyed map wraps at every advance. (R4) a flow's expected sequence number is re-seeded from a SYN only while the flow is in its initial state (guard dominance); (R5) legacy follower: of two segments buffered at the same sequence number the longer one is kept and the other freed (finite evaluation of safe_insert over slot-empty x length orderings).",
         note="Prefix/exactly-once delivery, overlap resolution and the legacy follower's equivalence are value-level and "
              "NOT decided. Assumes std::vector move leaves the source empty and that users do not mutate the map through "
              "the non-const accessor.",
@@ -129,7 +129,7 @@ CLAIMED = {
              "and the non-null payload test; is_complete() == last-seen AND counts-equal AND first-offset-0 on all 8 rows; "
              "allocate_pdu rejects gaps), what the reassembled packet is made of (first fragment's header, payload "
              "installed, offset/flags cleared, stream forgotten), unfragmented packets and incomplete streams untouched, "
-             "key = (id, src, dst), insertion/accounting/ordered-search/duplicate-test pairing.",
+             "key = (id, src, dst), insertion/accounting/ordered-search/duplicate-test pairing. (R3 ext.) make_address_pair returns an ordered pair built from both addresses (no lossy digest); (R5) every payload layer the IPv4 parser builds (protocol dispatch, allocator registry, RawPDU in both the fragmented and unfragmented arms) receives the size clamped to the header's total length on every path.",
         note="NOT decided: status sequences under arbitrary interleavings and duplication, byte identity of the "
              "reassembled payload, overlapping fragments.",
     ),
@@ -144,7 +144,7 @@ CLAIMED = {
              "src/crypto.cpp (payload vectors, PTK, scratch blocks, OpenSSL block/digest sizes); (R3) WPA2 keys are "
              "looked up by source pair then destination pair; (R4) the step table of RSNHandshakeCapturer::do_insert: a "
              "message is appended iff it is the next expected one and a retransmission of the last stored message leaves "
-             "the partial handshake untouched. Two genuine memory-safety defects found here were repaired with fix: commits.",
+             "the partial handshake untouched. Two genuine memory-safety defects found here were repaired with fix: commits. (R5) session keys derived from a newly captured handshake, or supplied by the user, overwrite the entry for the same address pair (map subscript assignment; insert()/emplace() keep the stale key).",
         note="NOT decided: cipher correctness, PTK derivation, handshake orderings (seeded changes of that kind are not "
              "detected). One CCMP per-block offset depends on division/modulo and is listed as undecided, not proven.",
     ),
@@ -160,7 +160,7 @@ CLAIMED = {
              "exactly the later sections are shifted, by exactly the bytes inserted; (R4) each getter reads its own "
              "section; (R5) the record walker keeps cursor and remaining length in lock-step. Three genuine defects were "
              "found: two repaired (fix: commits), one recorded as known finding (update_records' unbounded walk on "
-             "hostile record data).",
+             "hostile record data). (R6) every (section index, record count) pair handed to the pointer-rewriting walker names the same section; (R7) convert_records: a char buffer later read as a C string is written only by the text producers (compose_name, address formatters); message bytes go into a std::string with explicit length.",
         note="NOT decided: pointer-rewriting arithmetic, name length limits (255 octets), typed record data, "
              "re-parse equality. The add_record family reaches the indices through pointers-to-member, outside E-BOUNDS' "
              "language: its invariant obligations are carried by R3's shape rules, not proved.",
@@ -192,7 +192,7 @@ CLAIMED = {
              "source without layers, move leaves the source null; (R2) every store of a child into inner_pdu_ is followed "
              "on all paths by parent_pdu(this), release clears the parent; (R3) clone() of every instantiable concrete layer "
              "class returns new K(*this); (R4) user-declared copy members forward to the PDU base. Two genuine defects "
-             "found this way were repaired with fix: commits (see known_findings.json 'fixed').",
+             "found this way were repaired with fix: commits (see known_findings.json 'fixed'). (R5) outside constructors an owning pointer member is overwritten only after the old target was deleted, saved or handed over on that path; (R6) a layer pointer obtained through the non-owning inner_pdu() getter is never deleted on a path on which the parent has not released it (expected count 0; fixture controls).",
         note="Deep equality of field values of copies and 'freed exactly once' over arbitrary programs are not decided; "
              "TCPStream's fragment maps (legacy API) are outside R1's structural owner detection.",
     ),
@@ -204,7 +204,7 @@ CLAIMED = {
         text="Decides the whole statement: for every concrete PDU class K (incl. PDUCacher<K>, instantiated in a "
              "synthetic TU) and every flagged class T, find_pdu<T>/tins_cast<T> can succeed on a K only if T is K "
              "or a base of K, and a search by K's own class succeeds. Finite quantifier, enumerated completely "
-             "(~23k pairs). The PDUCacher flag-sharing defect is a recorded known finding.",
+             "(~23k pairs). The PDUCacher flag-sharing defect is a recorded known finding. pdu_type() bodies are read as value SETS: a conditional whose condition reads object state contributes both arms, so a type flag that depends on mutable packet data is checked against every class it can claim to be.",
         note="Trusted: clang 14 front end, tools/tinsfacts.cc, the five-production grammar of matches_flag bodies "
              "(anything outside it is exit 2, never a pass). User-defined PDU subclasses are outside the quantifier; "
              "find_pdu<T>(type) assumed called with its default argument.",
@@ -220,7 +220,7 @@ CLAIMED = {
              "instantiations) is proved in bounds from the guards that dominate it. One genuine defect found this way "
              "(RadioTap::matches_response) was repaired with a fix: commit. Of clauses 1-2 only the IPv4 address predicate is "
              "decided (R2): its truth table over the four address comparisons accepts mirrored addresses and never accepts a "
-             "packet not addressed to us or, for unicast requests, not sent by the requested host.",
+             "packet not addressed to us or, for unicast requests, not sent by the requested host. (R3) ICMP / ICMPv6 query matching evaluated exhaustively over (request type, reply type) in the enum values, every constant compared with and an outside value, with the remaining equalities as boolean inputs: echo, timestamp and address-mask requests accept their own reply type iff identifier and sequence number are equal; no other type combination is accepted unless the enumerator names form a REQUEST/REPLY (SOLICIT/ADVERT) pair.",
         note="The rest of clauses 1-2 (identifiers, ports, sequence numbers, other layers' predicates) is value-level and NOT decided. Assumes "
              "no overflow in additions of 32-bit lengths; little-endian arm only.",
     ),
@@ -236,7 +236,7 @@ CLAIMED = {
              "the raw-IP handler); "
              "(R4) every handler marks the frame processed on all paths, "
              "next_packet loops only while no packet was produced and the handler ran, a negative pcap result yields a null "
-             "packet.",
+             "packet. (R5) every pcap_pkthdr libtins hands to pcap_dump / pcap_offline_filter has caplen and len (and ts for the writer) assigned from the frame on every path to the call; (R6) every Packet constructor / assignment operator that receives a timestamp or another packet object stores that timestamp in ts_ (copy, move, RefPacket, PtrPacket).",
         note="Byte/timestamp round-trip through PacketWriter/FileSniffer and agreement with libpcap's BPF matcher are "
              "runtime-value clauses and NOT decided. libpcap is assumed to call the handler at most once per pcap_loop(...,1,...).",
     ),
@@ -301,7 +301,7 @@ CLAIMED = {
              "neither ends below the cumulative ACK nor is SACKed => not acknowledged; otherwise continue; true only after "
              "the last piece (complete table: values are only touched through seq_compare's sign and set membership); (R2) "
              "every ACK advance in process_packet is preceded by cleanup_sacked_intervals(old, new); (R3) sequence numbers "
-             "are ordered only through seq_compare; (R4) no well-formed SACK block above the ACK is skipped.",
+             "are ordered only through seq_compare; (R4) no well-formed SACK block above the ACK is skipped. (R5) a SACKed piece that starts >= 1 above the cumulative ACK is recorded, never folded into the ACK (finite evaluation of the branch condition with the real seq_compare body over ACK values around 0, 2^31 and the wrap and distances 1,2,3,1460,2^31-1); (R6) process_sack() is reachable both through and around the ACK advance.",
         note="NOT decided: the interval arithmetic over the wrapping 32-bit space, interval merging/splitting, agreement "
              "with a set-of-acknowledged-bytes model over histories - these are value-level.",
     ),
